@@ -232,12 +232,19 @@ func (m *machine) scanRequests() {
 			m.fail("foreign-file-sent", "a request was made to %s: the uploader sent a file of the local directory that is not one of its reports", r.URL)
 			return
 		}
+		// "today" is the date (UTC) of the start time the uploader was given or,
+		// when it was given none, of the instant at which it read the clock (its
+		// last reading: the clock may move between its creation and its first step).
 		today := refcal.Date(refcal.DayOfUnix(m.roundStart.Unix()))
-		if st, ok := m.startOf[r.Task]; ok && m.uploaderOf[r.Task] == m.round && st.After(m.roundStart) {
-			today = refcal.Date(refcal.DayOfUnix(st.Unix())) // a late starter of this round
+		if st, ok := m.startOf[r.Task]; ok && m.uploaderOf[r.Task] == m.round {
+			if m.startGiven[r.Task] {
+				today = refcal.Date(refcal.DayOfUnix(st.Unix()))
+			} else if !r.Task.LastNow.IsZero() {
+				today = refcal.Date(refcal.DayOfUnix(r.Task.LastNow.Unix()))
+			}
 		}
 		if len(week) == 10 && week > today {
-			m.fail("future-report-sent", "report for week %s was sent on %s", week, today)
+			m.fail("future-report-sent", "report for week %s was sent by an uploader whose start time is on %s", week, today)
 			return
 		}
 		if !m.roundAsof.IsZero() && len(week) == 10 {
@@ -935,8 +942,8 @@ func (m *machine) checkLiveness(hist *[]string) {
 			continue
 		}
 		week := strings.TrimSuffix(n, ".json")
-		if len(week) != 10 || week > today {
-			continue
+		if len(week) != 10 || week > today || !validWeek(week) {
+			continue // (a name that is no date is a foreign file, not a report)
 		}
 		if !asof.IsZero() && !(refcal.Date(refcal.DayOfUnix(asof.Unix())) < week) {
 			continue
